@@ -64,7 +64,7 @@ void __wrap_free(void *p) {
 #endif
 
 #define MAXOBJ 64
-#define MAXTOK 4096
+#define MAXTOK 70000
 
 typedef struct { char name[32]; mzd_t *m; mzp_t *p; int is_win; } obj_t;
 static obj_t objs[MAXOBJ];
